@@ -65,7 +65,9 @@ func newPipeline(w *world, cas blobstore.BlobAccess, ac blobstore.BlobAccess, ba
 	writer, flusher := re_blobstore.NewBatchedStoreBlobAccess(cas, digest.KeyWithoutInstance, batchSize, sem)
 	flush := func(ctx context.Context) error {
 		// Transparent wrapper: observes what the flusher reports.
+		w.scope(ctx, 1)
 		err := flusher(ctx)
+		w.scope(ctx, -1)
 		w.onFlushReturn(ctx, err)
 		return err
 	}
@@ -93,6 +95,8 @@ func (p *pipeline) runAction(cfg actionCfg) {
 	st := &actionState{idx: idx, cfg: cfg, cancel: cancel, key: w.protoKey(ad)}
 	w.mu.Unlock()
 	ctx = withAction(ctx, st)
+	w.register(st, ctx)
+	defer w.unregister(st)
 	request := &remoteworker.DesiredState_Executing{
 		ActionDigest: ad,
 		Action:       &remoteexecution.Action{DoNotCache: cfg.dnc},
@@ -166,6 +170,7 @@ func oneAction(batchSize, semWeight int) *mc.Scenario {
 		g.start()
 		x.AdoptAnonymous()
 		w := newWorld(x)
+		w.addCancelEvents(x)
 		x.Go("worker", func() {
 			cfg := chooseCfg(x, outputSets, 4, 2, 2)
 			p := newPipeline(w, &fakeCAS{w}, &fakeAC{fakeCAS{w}}, batchSize, semaphore.NewWeighted(int64(semWeight)))
@@ -189,6 +194,7 @@ func twoActions(batchSize, semWeight int) *mc.Scenario {
 		g.start()
 		x.AdoptAnonymous()
 		w := newWorld(x)
+		w.addCancelEvents(x)
 		x.Go("worker", func() {
 			c1 := chooseCfg(x, first, 1, 1, 2)
 			c2 := chooseCfg(x, second, 1, 1, 1)
@@ -214,6 +220,7 @@ func storeDirect(semWeight int) *mc.Scenario {
 		g.start()
 		x.AdoptAnonymous()
 		w := newWorld(x)
+		w.addCancelEvents(x)
 		x.Go("writer", func() {
 			batchSize := 1 + x.ChooseFree("batch-size", 3)
 			r1 := round1[x.ChooseFree("round1", len(round1))]
@@ -223,14 +230,19 @@ func storeDirect(semWeight int) *mc.Scenario {
 				ctx, cancel := context.WithCancel(context.Background())
 				st := &actionState{idx: i, cfg: actionCfg{blobs: round}, cancel: cancel}
 				ctx = withAction(ctx, st)
+				w.register(st, ctx)
 				acked := 0
 				for _, name := range round {
-					if err := p.writer.Put(ctx, w.digests[name], w.newBuffer(ctx, name)); err == nil {
+					w.scope(ctx, 1)
+					err := p.writer.Put(ctx, w.digests[name], w.newBuffer(ctx, name))
+					w.scope(ctx, -1)
+					if err == nil {
 						w.ackedPut(ctx, name)
 						acked++
 					}
 				}
 				err := p.flush(ctx) // runs the acknowledged-write oracle and the buffer oracle
+				w.unregister(st)
 				cancel()
 				x.Outcome("r%d:%v acked=%d faults=%d flusherr=%v", i, round, acked, len(st.faults), err != nil)
 			}
@@ -253,6 +265,7 @@ func twoWorkers(batchSize, semWeight int) *mc.Scenario {
 		g.start()
 		x.AdoptAnonymous()
 		w := newWorld(x)
+		w.addCancelEvents(x)
 		w.multi = true
 		cas, ac := &fakeCAS{w}, &fakeAC{fakeCAS{w}}
 		sem := semaphore.NewWeighted(int64(semWeight))
